@@ -340,7 +340,7 @@ func (p *Prog) CG() *callgraph.Graph {
 // callee when there is one, otherwise the VTA targets.
 func (p *Prog) Callees(site ssa.CallInstruction) []*ssa.Function {
 	if c := site.Common().StaticCallee(); c != nil {
-		return []*ssa.Function{c}
+		return unwrapSynthetic(c, 0)
 	}
 	n := p.CG().Nodes[site.Parent()]
 	if n == nil {
@@ -354,7 +354,36 @@ func (p *Prog) Callees(site ssa.CallInstruction) []*ssa.Function {
 			out = append(out, e.Callee.Func)
 		}
 	}
+	// see through synthetic wrappers (bound-method closures, thunks, promoted-method wrappers)
+	var exp []*ssa.Function
+	for _, f := range out {
+		exp = append(exp, unwrapSynthetic(f, 0)...)
+	}
+	out = exp
 	sort.Slice(out, func(i, j int) bool { return out[i].String() < out[j].String() })
+	return out
+}
+
+func unwrapSynthetic(f *ssa.Function, depth int) []*ssa.Function {
+	if f.Synthetic == "" || f.Blocks == nil || depth > 3 {
+		return []*ssa.Function{f}
+	}
+	if !strings.Contains(f.Synthetic, "wrapper") && !strings.Contains(f.Synthetic, "thunk") && !strings.Contains(f.Synthetic, "bound") {
+		return []*ssa.Function{f}
+	}
+	var out []*ssa.Function
+	for _, b := range f.Blocks {
+		for _, i := range b.Instrs {
+			if c, ok := i.(ssa.CallInstruction); ok {
+				if t := c.Common().StaticCallee(); t != nil {
+					out = append(out, unwrapSynthetic(t, depth+1)...)
+				}
+			}
+		}
+	}
+	if len(out) == 0 {
+		return []*ssa.Function{f}
+	}
 	return out
 }
 
@@ -386,4 +415,24 @@ func (p *Prog) TypesInfo(pos token.Pos) *types.Info {
 		}
 	}
 	return nil
+}
+
+// IsGenerated reports whether pos lies in a file carrying the standard
+// "Code generated ... DO NOT EDIT." marker.
+func (p *Prog) IsGenerated(pos token.Pos) bool {
+	f := p.FileOf(pos)
+	if f == nil {
+		return false
+	}
+	for _, cg := range f.Comments {
+		if cg.Pos() > f.Package {
+			break
+		}
+		for _, c := range cg.List {
+			if (strings.Contains(c.Text, "Code generated") || strings.Contains(c.Text, "generated by")) && strings.Contains(c.Text, "DO NOT EDIT") {
+				return true
+			}
+		}
+	}
+	return false
 }
